@@ -176,19 +176,26 @@ def cmd_run(pid, tier, keep=False):
         e["VERIF_TAG"] = tag
         return e
 
-    # ---- replay tier -------------------------------------------------------------------
+    # ---- replay tier (runs concurrently with the generated campaigns, judged first) -----------
     replays = sorted(glob.glob(os.path.join(ROOT, "replays", pid, "*.json")))
     replay_results = {}
+    replay_job = None
     if replays and spec.get("replay", True):
         e = mkenv("replay")
         e["VERIF_REPLAY_FILES"] = "\n".join(replays)
         e["VERIF_REPLAY_OUT"] = os.path.join(rundir, "replay-out.json")
+        e["VERIF_INSTANCE"] = "30"
         lp = os.path.join(rundir, "replay.log")
-        r = run_procs([("replay", [testbin, "-test.run", "^TestReplay$", "-test.count=1", "-test.timeout=%ds" % spec.get("replay_timeout", 600)], e, lp)], spec.get("replay_timeout", 600) + 30)
-        if os.path.exists(e["VERIF_REPLAY_OUT"]):
-            replay_results = json.load(open(e["VERIF_REPLAY_OUT"]))
+        rt = spec.get("replay_timeout", 900)
+        replay_job = ("replay", [testbin, "-test.run", "^TestReplay$", "-test.count=1", "-test.timeout=%ds" % rt], e, lp, rt)
+
+    def judge_replays(out):
+        nonlocal replay_results
+        e_out = os.path.join(rundir, "replay-out.json")
+        if os.path.exists(e_out):
+            replay_results = json.load(open(e_out))
         else:
-            inconclusive.append("replay tier produced no result: " + r[0][2][-2000:])
+            inconclusive.append("replay tier produced no result: " + out[-2000:])
         byfile = {os.path.join(ROOT, k["replay"]): k for k in known if k.get("replay")}
         for f in replays:
             res = replay_results.get(f)
@@ -197,7 +204,7 @@ def cmd_run(pid, tier, keep=False):
             k = byfile.get(f)
             if res["ok"]:
                 if k and k["status"] == "known":
-                    log("NOTE: known finding %s no longer reproduces (replay %s passes)" % (k["id"], os.path.relpath(f, ROOT)))
+                    log("NOTE: known finding %s did not reproduce in this run (replay %s passes)" % (k["id"], os.path.relpath(f, ROOT)))
                 continue
             if res.get("inconclusive"):
                 inconclusive.append("replay %s: %s" % (f, res.get("msg")))
@@ -237,6 +244,8 @@ def cmd_run(pid, tier, keep=False):
     results = []
     wave = []
     maxpar = spec.get("max_parallel", ncpu)
+    if replay_job:
+        jobs.insert(0, (replay_job[0], replay_job[1], replay_job[2], replay_job[3], replay_job[4], "replay", 0))
     for j in jobs:
         wave.append(j)
         if len(wave) == maxpar:
@@ -252,7 +261,7 @@ def cmd_run(pid, tier, keep=False):
             cdir = os.path.join(rundir, "fuzzcache")
             e["GOCACHE_FUZZ"] = cdir
             cmd = ["go", "test", "-tags", "verif", "-vet=off", "-run", "^$", "-fuzz", "^" + fz["target"] + "$",
-                   "-fuzztime", "%ds" % fz.get("seconds", 60), "-test.fuzzcachedir", cdir, "./" + spec["pkg"]]
+                   "-fuzztime", "%ds" % fz.get("seconds", 60), "./" + spec["pkg"], "-test.fuzzcachedir=" + cdir]
             rc, o = sh(cmd, ROOT, env=e, timeout=fz.get("seconds", 60) + 900)
             tag = "fuzz-" + fz["target"]
             open(os.path.join(rundir, "log-%s.txt" % tag), "w").write(o)
@@ -267,6 +276,10 @@ def cmd_run(pid, tier, keep=False):
                     os.remove(x)
 
     # ---- judge -----------------------------------------------------------------------
+    for tag, rc, out in results:
+        if tag == "replay":
+            judge_replays(out)
+    results = [r for r in results if r[0] != "replay"]
     for tag, rc, out in results:
         fdir = os.path.join(faildir, tag)
         ffiles = sorted(glob.glob(os.path.join(fdir, "*.json")))
@@ -338,7 +351,7 @@ def cmd_run(pid, tier, keep=False):
             "evaluations": evaluations, "distinct_nontrivial": distinct, "rule": spec["rule"],
             "samples": samples[:12], "campaigns": percamp,
             "replays_run": len(replay_results), "replays_failed_known": len(known_lines),
-            "processes": len(jobs), "fuzz_targets": [f["target"] for f in spec.get("fuzz", [])] if tier == "thorough" else [],
+            "processes": len([j for j in jobs if j[0] != "replay"]), "fuzz_targets": [f["target"] for f in spec.get("fuzz", [])] if tier == "thorough" else [],
         },
         "assumptions": spec.get("assumptions", []),
         "wall_s": round(time.time() - t0, 2),
